@@ -139,6 +139,7 @@ def floors(tier):
             "op:tc-mutate:modified": 1000,
             "op:tc-mutate:unmodified": 100,
             "op:tc-mutate:no-call-on-sut": 60,
+            "op:tc-mutate:chopped-to-no-call-on-sut": 30,
             "op:tc-crossover:modified": 300,
             "op:tc-clone": 500,
             "op:suite-mutate:modified": 500,
@@ -716,12 +717,49 @@ def _apply(world, rng, forced=None):  # noqa: C901, PLR0912, PLR0915
 
     if op == "tc-mutate":
         no_sut = not factory.has_call_on_sut(c.test_case)
+        sa = config.configuration.search_algorithm
+        size0 = c.size()
+        chop_expected = sa.chop_max_length and size0 >= sa.chromosome_length
         operator(op, c.mutate)
         name = "mutate[no-call-on-sut-before]" if no_sut else "mutate"
         modified = _event(mon, c, name, before, world)
         ctx.cls("op:tc-mutate:modified" if modified else "op:tc-mutate:unmodified")
         if no_sut:
             ctx.cls("op:tc-mutate:no-call-on-sut")
+        if chop_expected and not no_sut and c.size() < size0 and not factory.has_call_on_sut(c.test_case):
+            ctx.cls("op:tc-mutate:chopped-to-no-call-on-sut")
+    elif op == "tc-chop-setup":
+        # directed only: the last execution of every pool test raised at statement 0 (a primitive), the test is at
+        # the maximum length and no mutation/insertion fires: mutate() chops down to a test without call on the SUT
+        import libcst as cst
+
+        import pynguin.testcase.testcase as tc
+
+        from pynguin.testcase.execution_result import ExecutionResult
+
+        sa = config.configuration.search_algorithm
+        sa.chop_max_length = True
+        sa.test_delete_probability = sa.test_change_probability = sa.test_insert_probability = 0.0
+        sa.statement_insertion_probability = 0.0
+        sa.chromosome_length = 48
+        for k in range(len(world.tcs)):
+            t = tc.TestCase()
+            t.add_statement(tc.Statement(node=cst.parse_module("var_0 = 5\n").body[0], bound_variable="var_0", bound_type=int))
+            for _ in range(rng.randint(1, 3)):
+                factory.insert_random_statement(t, t.size())
+            ch = world.tcc.TestCaseChromosome(t, factory)
+            for f in world.case_ffs[:3]:
+                ch.add_fitness_function(f)
+            ch.add_coverage_function(world.case_cfs[0])
+            for f in ch.get_fitness_functions():
+                ch.get_fitness_for(f)  # fills the caches, clears the changed flag
+            ch.get_coverage_for(world.case_cfs[0])
+            res = ExecutionResult()
+            res.report_new_thrown_exception(0, ValueError("pseudo"))
+            ch.set_last_execution_result(res)
+            mon.meta_of(ch)
+            world.tcs[k] = ch
+        sa.chromosome_length = 2
     elif op == "tc-crossover":
         j = rng.randrange(len(pool))
         if j == i:
@@ -1055,6 +1093,10 @@ def run_chunk(spec, ctx):
 
                     _history(ctx, mon, rng, env, 0, setup=setup,
                              forced=["tc-query-all", "tc-mutate", "tc-query-all", "tc-mutate", "tc-query", "tc-query", "tc-mutate", "tc-query-all"] * 2)
+                # mutate() chops after the failing statement 0, what is left has no call on the SUT, nothing is inserted
+                for rep in range(15):
+                    _history(ctx, mon, rng, env, 0, forced=["tc-chop-setup", "tc-mutate", "tc-query-all", "tc-mutate", "tc-query-all",
+                                                           "tc-mutate", "tc-query-all", "tc-mutate", "tc-query-all"])
                 # the same through a suite: its only member has no call on the SUT, TestSuiteMutation mutates it
                 for rep in range(30):
                     def setup_suites(world, rep=rep):
